@@ -6,6 +6,7 @@ from snakeoil.sequences import iflatten_instance
 
 from ..log import logger
 from .atom import atom
+from .errors import MalformedAtom
 
 
 def _scan_directory(path, eapi):
@@ -13,10 +14,16 @@ def _scan_directory(path, eapi):
     for filename in listdir_files(path):
         match = eapi.options.update_regex.match(filename)
         if match is not None:
-            files.append(filename)
+            # quarter named files ([1-4]Q-YYYY) are processed chronologically,
+            # by year then quarter; anything else is ordered by name.
+            groups = match.groups()
+            if len(groups) == 2:
+                files.append(((int(groups[1]), int(groups[0])), filename))
+            else:
+                files.append(((), filename))
         else:
             logger.error(f"incorrectly named update file: {filename!r}")
-    return sorted(files)
+    return [filename for _, filename in sorted(files)]
 
 
 def read_updates(path, eapi):
@@ -68,7 +75,13 @@ def _process_updates(sequence, filename, mods, moved):
                     f"file {filename!r}: {raw_line!r} on line {lineno}: bad move form"
                 )
                 continue
-            src, trg = atom(line[1]), atom(line[2])
+            try:
+                src, trg = atom(line[1]), atom(line[2])
+            except MalformedAtom as e:
+                logger.error(
+                    f"file {filename!r}: {raw_line!r} on line {lineno}: bad move form: {e}"
+                )
+                continue
             if src.fullver is not None:
                 logger.error(
                     f"file {filename!r}: {raw_line!r} on line {lineno}: "
@@ -104,7 +117,14 @@ def _process_updates(sequence, filename, mods, moved):
                     "bad slotmove form"
                 )
                 continue
-            src = atom(line[1])
+            try:
+                src = atom(line[1])
+            except MalformedAtom as e:
+                logger.error(
+                    f"file {filename!r}: {raw_line!r} on line {lineno}: "
+                    f"bad slotmove form: {e}"
+                )
+                continue
 
             if src.key in moved:
                 logger.warning(
@@ -120,8 +140,15 @@ def _process_updates(sequence, filename, mods, moved):
                 )
                 continue
 
-            src_slot = atom(f"{src}:{line[2]}")
-            _ = atom(f"{src.key}:{line[3]}")
+            try:
+                src_slot = atom(f"{src}:{line[2]}")
+                _ = atom(f"{src.key}:{line[3]}")
+            except MalformedAtom as e:
+                logger.error(
+                    f"file {filename!r}: {raw_line!r} on line {lineno}: "
+                    f"bad slotmove form: {e}"
+                )
+                continue
 
             mods[src.key][1].append(("slotmove", src_slot, line[3]))
         else:
